@@ -20,7 +20,7 @@ RULE = ("ttl {1,1.5,4,3600,none} x delivery instant {E-1s,E-1us,E,E+1us,E+1s} x 
 ASSUMPTIONS = ["Redis and RabbitMQ are wire-level fakes", "virtual time; exact instants only at zero wire latency (redis polls priorities with 0.1 s sleeps, so its instants are approximate; the oracle uses the observed instants)",
                "with wire latency l the execution allowance after E is 2l + 0.35 s"]
 EVAL_COUNTER = "messages_judged"
-REQUIRED = ["messages_judged", "executed_live", "dead_lettered_expired", "dead_retrieved", "boundary_exact", "kind_retry_cross", "kind_retry_late", "kind_resched", "priority_high", "priority_low", "timezone_offset_runs", "arrivals_at_a_waiting_consumer", "mixed_queue_messages", "revived_messages_judged"]
+REQUIRED = ["messages_judged", "executed_live", "dead_lettered_expired", "dead_retrieved", "boundary_exact", "kind_retry_cross", "kind_retry_late", "kind_resched", "priority_high", "priority_low", "timezone_offset_runs", "arrivals_at_a_waiting_consumer", "mixed_queue_messages", "revived_messages_judged", "expired_next_to_a_running_twin"]
 CASE_TIMEOUT = 120
 
 TTLS = [1.0, 1.5, 4.0, 3600.0, 90000.0, 172800.0, None]
@@ -69,6 +69,11 @@ def gen_cases(tier, seed):
     for broker in ("mem", "redis", "rabbit"):
         for wait in ((0.5, 3.5) if tier == "quick" else (0.0, 0.5, 1.9, 2.1, 3.5)):
             cases.append({"broker": broker, "kind": "revive", "ttl": 2.0, "delta": wait, "latency": None if broker == "mem" else 0.004, "seed": rnd.randrange(10**6), "phase": rnd.choice([0.0, 0.25, 0.5, 0.999]), "n": 4})
+    # an expired message is found while a live message with the SAME id, topic and priority (the job enqueued twice, the
+    # first copy long ago) is being executed: the expired one is dead-lettered, the live one runs and is acknowledged
+    for broker in ("mem", "rabbit"):  # (Redis keeps one message per routing key: a second enqueue adds nothing there)
+        for i in range(2 if tier == "quick" else 8):
+            cases.append({"broker": broker, "kind": "twin_expired", "ttl": 2.0, "delta": 0.0, "latency": None if broker == "mem" else 0.004, "seed": rnd.randrange(10**6), "phase": 0.0, "n": 8})
     # the same property on a machine whose local time is not UTC (timestamps are naive local datetimes)
     for tz in ("AAA-5", "BBB5", "CCC-0:30"):
         for mode in ("live_recurring", "expired_after_reschedule"):
@@ -368,6 +373,57 @@ async def mixed_scenario(loop, case, out, stats, fps):
         await w.close()
 
 
+async def twin_expired_scenario(loop, case, out, stats, fps):
+    from rv.wl import World, run_worker
+
+    broker, n = case["broker"], case["n"]
+    w = World(loop, broker, converter="basic", seed=case["seed"], latency=case["latency"])
+    try:
+        await w.open()
+        r = w.router()
+        w.scripted_actor(r, "act")
+        await w.conn.message_broker.queue_declare("default")
+        loop.jump(3600.0 + 1.37)
+        ids = [f"tw{i}" for i in range(n)]
+        for id_ in ids:
+            # the stale copy first built (an hour ago, 2 s to live), the fresh one enqueued first and running when the
+            # stale one is looked at
+            await w.job("act", id_, {"do": "ok", "d": 1.5, "label": "live"}, ttl=timedelta(days=1), timeout=timedelta(seconds=30), store_result=False, args_id=f"args-live-{id_}").enqueue()
+        for id_ in ids:
+            stale = w.job("act", id_, {"do": "ok", "d": 0.01, "label": "stale"}, ttl=timedelta(seconds=2), timeout=timedelta(seconds=30), store_result=False, args_id=f"args-stale-{id_}")
+            stale.timestamp = datetime.now() - timedelta(hours=1)
+            await stale.enqueue()
+        want = set(ids)
+        info = await run_worker(w, w.worker([r], tasks_limit=1000, graceful_shutdown_time=5.0, handle_signals=[__import__("signal").SIGUSR1]),
+                                until=lambda: {e["id"] for e in w.events("actor_end")} >= want and not w.inflight, horizon=12.0, poll=0.25)
+        if info["exc"] is not None or not info["returned"]:
+            out.append(V("worker_died", broker, "twin_expired", f"{info}"))
+        await asyncio.sleep(0.5)
+        runs = collections.Counter((e["id"], e.get("label")) for e in w.events("actor_start"))
+        left = collections.defaultdict(list)
+        for cat, id_, payload, _ps in await w.rig.drain(w.conn, "default"):
+            left[id_].append((cat.lower(), "stale" if "stale" in payload else "live" if "live" in payload else payload[:30]))
+        fps.add(f"{broker}/twin_expired/{n}")
+        for id_ in ids:
+            stats["messages_judged"] += 2
+            stats["expired_next_to_a_running_twin"] += 1
+            if runs[(id_, "stale")]:
+                out.append(V("expired_executed", broker, "twin_expired", f"{id_}: the copy that was an hour old (2 s to live) was executed"))
+            if runs[(id_, "live")] != 1:
+                out.append(V("live_dead_lettered" if not runs[(id_, "live")] else "expired_executed", broker, "twin_expired", f"{id_}: the live copy (1 day to live) was executed {runs[(id_, 'live')]} times"))
+            else:
+                stats["executed_live"] += 1
+            if sorted(left[id_]) != [("dead", "stale")]:
+                rule = "live_dead_lettered" if ("dead", "live") in left[id_] else "expired_not_dead_lettered"
+                out.append(V(rule, broker, "twin_expired", f"{id_}: a copy an hour old (2 s to live) was met while its twin of the same id, topic and priority (1 day to live) was being executed; afterwards the broker holds {sorted(left[id_])}, "
+                                                            f"expected [('dead', 'stale')]"))
+                break
+            stats["dead_lettered_expired"] += 1
+        stats["unknown_server_commands"] += w.rig.unknown_commands()
+    finally:
+        await w.close()
+
+
 async def revive_scenario(loop, case, out, stats, fps):
     from repid.message import Message, MessageCategory
     from rv.wl import World, run_worker
@@ -520,6 +576,8 @@ def run_case(case):
         return {"fp": None, "fps": sorted(fps), "viol": out[:8], "stats": dict(stats)}
     if case.get("kind") == "mixed":
         res = vl.run(lambda loop: mixed_scenario(loop, case, out, stats, fps), max_steps=3_000_000, seed=case["seed"])
+    elif case.get("kind") == "twin_expired":
+        res = vl.run(lambda loop: twin_expired_scenario(loop, case, out, stats, fps), max_steps=3_000_000, seed=case["seed"])
     elif case.get("kind") == "revive":
         res = vl.run(lambda loop: revive_scenario(loop, case, out, stats, fps), max_steps=3_000_000, seed=case["seed"])
     else:
